@@ -2,9 +2,41 @@
 open Model
 open Conv
 
+(* ---- extraction cross-check: a sample of the kernel calls of this process, with the results the extracted code
+   obtained, written as Coq terms (VERIF_XCHECK=<file>); bin/check lets Coq re-evaluate them with vm_compute ---- *)
+let xcheck_oc = lazy (match Sys.getenv_opt "VERIF_XCHECK" with
+    | Some p when p <> "" -> Some (open_out_gen [Open_append; Open_creat] 0o644 p)
+    | _ -> None)
+let xcheck_count = ref 0
+let xcheck_max = 8
+let coq_nat n = Printf.sprintf "%d%%nat" (int_of_nat n)
+let coq_qc (x : qc) : string =
+  let q = this x in Printf.sprintf "(Q2Qc (Qmake (%s)%%Z %s%%positive))" (string_of_z q.qnum) (string_of_pos q.qden)
+let coq_list f l = "[" ^ String.concat "; " (List.map f l) ^ "]"
+let coq_vec (v : vec) = coq_list coq_qc v
+let coq_aff (f : aff) =
+  Printf.sprintf "{| a_in := %s; a_mat := %s; a_bias := %s |}" (coq_nat f.a_in) (coq_list coq_vec f.a_mat) (coq_vec f.a_bias)
+let rec coq_ptree = function
+  | U -> "U"
+  | T f -> "(T " ^ coq_aff f ^ ")"
+  | D (p, ch) -> "(D " ^ coq_aff p ^ " " ^ coq_list coq_ptree ch ^ ")"
+let rec ptree_nodes = function U -> 0 | T _ -> 1 | D (_, ch) -> 1 + List.fold_left (fun a c -> a + ptree_nodes c) 0 ch
+let coq_tres = function Equal -> "Equal" | Differ x -> "(Differ " ^ coq_vec x ^ ")" | TUnknown -> "TUnknown"
+(* tree_equiv, recorded *)
+let tree_equiv_x (n : nat) (t1 : ptree) (t2 : ptree) : tres =
+  let r = tree_equiv n [] t1 t2 in
+  (match Lazy.force xcheck_oc with
+   | Some oc when !xcheck_count < xcheck_max && ptree_nodes t1 + ptree_nodes t2 <= 40 ->
+     incr xcheck_count;
+     Printf.fprintf oc "Example xcheck_%d_%d : tres_eqb (tree_equiv %s [] %s %s) %s = true.\nProof. vm_compute. reflexivity. Qed.\n"
+       0 !xcheck_count (coq_nat n) (coq_ptree t1) (coq_ptree t2) (coq_tres r);
+     flush oc
+   | _ -> ());
+  r
+
 (* certified comparison of two trees for ALL inputs of dimension n; prints a verdict line on failure *)
 let equiv_check ~(id : string) ~(tag : string) (n : int) (t_impl : ptree) (t_spec : ptree) : bool =
-  match tree_equiv (nat_of_int n) [] t_impl t_spec with
+  match tree_equiv_x (nat_of_int n) t_impl t_spec with
   | Equal -> true
   | Differ x ->
     if check_cex (nat_of_int n) [] t_impl t_spec x then
